@@ -2,16 +2,17 @@
 # tools/runseeds.sh <scratch-worktree> [seed ids...]: applies each /verif/seeded/<id>/patch.diff to the scratch worktree (never /repo),
 # runs the repository's suite and the checks named in meta.json's caught_by (quick tier) through VERIF_REPO, prints a table.
 set -u
+V="$(cd "$(dirname "$0")/.." && pwd)"   # the verification directory this script lives in (normally /verif)
 WT="$1"; shift
-IDS="$*"; [ -z "$IDS" ] && IDS=$(ls /verif/seeded)
+IDS="$*"; [ -z "$IDS" ] && IDS=$(ls $V/seeded)
 export VERIF_REPO="$WT"
 for ID in $IDS; do
   git -C "$WT" checkout -q -- . 2>/dev/null
-  git -C "$WT" apply "/verif/seeded/$ID/patch.diff" 2>/dev/null || { echo "$ID | patch does not apply"; continue; }
-  if /verif/bin/baseline >/dev/null 2>&1; then SUITE=survives; else SUITE=KILLED-BY-SUITE; fi
+  git -C "$WT" apply "$V/seeded/$ID/patch.diff" 2>/dev/null || { echo "$ID | patch does not apply"; continue; }
+  if $V/bin/baseline >/dev/null 2>&1; then SUITE=survives; else SUITE=KILLED-BY-SUITE; fi
   DET=$(python3 -c "
 import json,re
-m=json.load(open('/verif/seeded/$ID/meta.json'))
+m=json.load(open('$V/seeded/$ID/meta.json'))
 s=[]
 for c in m['caught_by']:
     for x in re.findall(r'C\d\d', c.split('(')[0]):
@@ -19,7 +20,7 @@ for c in m['caught_by']:
 print(' '.join(s))")
   RES=""
   for P in $DET; do
-    OUT="$(/verif/bin/check "$P" quick 2>&1)"; RC=$?
+    OUT="$($V/bin/check "$P" quick 2>&1)"; RC=$?
     N=$(printf '%s\n' "$OUT" | grep -a -c '^VIOLATION')
     if [ $RC -eq 1 ] && [ "$N" -gt 0 ]; then RES="$RES $P:CAUGHT($N)"; elif [ $RC -eq 0 ]; then RES="$RES $P:missed"; else RES="$RES $P:rc=$RC"; fi
   done
